@@ -9,25 +9,49 @@ use framehop::x86_64::UnwinderX86_64;
 use framehop::{MayAllocateDuringUnwind, Unwinder};
 
 fn shape_check(rep: &mut Report) {
+    // The C18 theorems assume that a draw is ONE atomic read-modify-write of a 16-bit counter
+    // (no test can establish atomicity). Accepted shapes of the only writer of the counter, where
+    // ever it lives in src/unwinder.rs: `fetch_add(1, <ordering>)` and
+    // `fetch_update(<ordering>, <ordering>, |x| Some(x.wrapping_add(1)))`; any number of plain
+    // `load`s (the hooks peek); nothing else (store, swap, compare_exchange, fetch_sub, ...).
     let src = std::fs::read_to_string("/repo/src/unwinder.rs").unwrap_or_default();
-    let body = src
-        .split("fn next_global_modules_generation() -> u16 {")
-        .nth(1)
-        .and_then(|s| s.split('}').next())
-        .unwrap_or("")
-        .split_whitespace()
-        .collect::<Vec<_>>()
-        .join(" ");
-    let ok = body.starts_with("GLOBAL_MODULES_GENERATION.fetch_add(1, Ordering::")
-        && body.matches("GLOBAL_MODULES_GENERATION").count() == 1
-        && src.contains("static GLOBAL_MODULES_GENERATION: AtomicU16");
+    let flat: String = src.split_whitespace().collect::<Vec<_>>().join("");
+    let name = "GLOBAL_MODULES_GENERATION";
+    let mut rmw = 0usize;
+    let mut other = Vec::new();
+    for (i, _) in flat.match_indices(name) {
+        let rest = &flat[i + name.len()..];
+        let rest = &rest[..rest.len().min(120)];
+        if rest.starts_with(":AtomicU16=AtomicU16::new(") || rest.starts_with(".load(Ordering::") {
+            continue;
+        }
+        if rest.starts_with(".fetch_add(1,Ordering::") {
+            rmw += 1;
+            continue;
+        }
+        if let Some(r) = rest.strip_prefix(".fetch_update(Ordering::") {
+            // Ordering::A,Ordering::B,|x|Some(x.wrapping_add(1))
+            let mut it = r.splitn(3, ',');
+            let (_o1, o2, clo) = (it.next().unwrap_or(""), it.next().unwrap_or(""), it.next().unwrap_or(""));
+            let clo_ok = clo.strip_prefix('|').and_then(|c| c.split_once('|')).map_or(false, |(v, body)| {
+                !v.is_empty() && v.chars().all(|ch| ch.is_alphanumeric() || ch == '_') && body.starts_with(&format!("Some({v}.wrapping_add(1))"))
+            });
+            if o2.starts_with("Ordering::") && clo_ok {
+                rmw += 1;
+                continue;
+            }
+        }
+        other.push(rest[..rest.len().min(60)].to_string());
+    }
+    let ok = rmw == 1 && other.is_empty() && flat.contains("staticGLOBAL_MODULES_GENERATION:AtomicU16");
+    let body = format!("atomic read-modify-write sites={rmw} other uses={other:?}");
     rep.notes.push(format!("generation counter update shape: `{body}` ok={ok}"));
     if !ok {
         rep.add_finding(Finding {
             props: vec!["C18".into()],
             kind: "correspondence".into(),
             key: "generation-update-shape".into(),
-            what: "next_global_modules_generation is no longer a single fetch_add on an AtomicU16 (the atomicity assumption of the C18 theorems is stated for that shape)".into(),
+            what: "the global generation counter is no longer an AtomicU16 written by exactly one atomic read-modify-write (fetch_add(1) / fetch_update(+1)) - the atomicity assumption of the C18 theorems is stated for that shape".into(),
             case: body,
             impl_out: String::new(),
             model_out: "GLOBAL_MODULES_GENERATION.fetch_add(1, Ordering::Relaxed)".into(),
